@@ -29,6 +29,9 @@ def _say(*a):
         print('DETAIL:', *a)
 
 
+_REF_READERS = {}
+
+
 class History:
     def __init__(self, d: Path, encrypted=True, concurrent=2, delays=None, fresh_objects=False):
         self.U = users(encrypted)
@@ -78,7 +81,18 @@ class History:
             return None
         victims = mine[-n:]
         r = fresh_repo(self.U, u, self.be, concurrent=self.concurrent) if self.fresh_destructive else self.repo(u)
-        self.run(r.delete_snapshots([s['name'] for s in victims], confirm=False))
+        if getattr(self, 'confirm', False):
+            # through the interactive prompt, answered 'y'
+            import contextlib
+            import io
+            R.input = lambda prompt='': 'y'
+            try:
+                with contextlib.redirect_stdout(io.StringIO()):
+                    self.run(r.delete_snapshots([s['name'] for s in victims], confirm=True))
+            finally:
+                del R.input
+        else:
+            self.run(r.delete_snapshots([s['name'] for s in victims], confirm=False))
         for s in victims:
             s['alive'] = False
         return victims[-1]
@@ -107,6 +121,27 @@ class History:
             got = {'/' + k: v[0] for k, v in world.tree_state(out).items()}
             if got != s['files']:
                 return False, f'restore of {s["name"][:8]} ({s["owner"]}) differs: {sorted(got)} vs {sorted(s["files"])}'
+        # ... and by an independent reader (vt/ref_format.py: its own key derivation, no state shared with replicat - what a
+        # restore from another process or another implementation sees)
+        from vt import ref_format as RF
+        for s in alive:
+            if s['files'] is None:
+                continue
+            key = (self.U.encrypted, s['owner'])
+            if key not in _REF_READERS:
+                r0 = self.repos[s['owner']]
+                kj = r0.serialize(self.U.keys[s['owner']]) if self.U.encrypted else None
+                _REF_READERS[key] = RF.Repo(self.U.config, kj, self.U.pw[s['owner']])
+            ref = _REF_READERS[key]
+            try:
+                mine = [x for x in ref.read_snapshots(self.be.objs) if x.get('data') is not None and x['name'] == s['name']]
+                if len(mine) != 1:
+                    return False, f'independent reader: snapshot {s["name"][:8]} of {s["owner"]} not readable with its owner key'
+                files = ref.read_files(self.be.objs, mine[0])
+            except Exception as e:
+                return False, f'independent reader cannot decode snapshot {s["name"][:8]} of {s["owner"]}: {e!r}'
+            if files != s['files']:
+                return False, f'independent reader decodes different files for snapshot {s["name"][:8]} of {s["owner"]}'
         return True, ''
 
     def verify_dedup(self):
@@ -122,6 +157,7 @@ def run_history(codes, encrypted=True, concurrent=2, delays=None, fresh_objects=
     with world.scratch('hist') as d:
         h = History(d, encrypted=encrypted, concurrent=concurrent, delays=delays, fresh_objects=fresh_objects)
         h.fresh_destructive = sum(codes) % 2 == 1
+        h.confirm = sum(codes) % 5 == 0
         trace = []
         for c in codes:
             op, u, fs = OPS[c]
@@ -587,6 +623,7 @@ def e_dedup_ops(k: int) -> bool:
         with world.scratch('c07o') as d:
             h = History(d, encrypted=True)
             h.fresh_destructive = (c0 + c1 + c2) % 2 == 1
+            h.confirm = (c0 + 2 * c1 + c2) % 3 == 0       # a third of the histories delete through the confirmation prompt
             ok, msg = True, ''
             try:
                 for c in (0, c0, c1, c2, 0):
